@@ -59,6 +59,10 @@ func (c *PContacts) Reset() {
 	for i := 0; i < c.VNo(); i++ {
 		c.Vals[i].Reset()
 	}
+	if c.N < len(c.Vals) {
+		// value in progress (suspended or failed parse)
+		c.Vals[c.N].Reset()
+	}
 	v := c.Vals
 	*c = PContacts{}
 	c.Vals = v
